@@ -155,3 +155,12 @@ impl DiagnosticMessage for Error {
         }
     }
 }
+
+#[cfg(vrl_verif)]
+impl Abort {
+    /// verification hook: the optional message expression.
+    #[must_use]
+    pub fn verif_message(&self) -> Option<&Expr> {
+        self.message.as_deref()
+    }
+}
